@@ -75,7 +75,7 @@ CHECKS = {
     },
     "C07": {
         "text": "Coq over Model/Sched.v, a step-by-step rendering of the per-key protocol (optimistic read, local computation, re-validation and swap under the entry guard, retirement-timestamp checks, retry loops) for get, insert, delete, compare-and-swap, increment, insert-if-absent and JSON patch: for every number of threads, every program and every schedule the commits in response order form a legal sequential last-writer-wins history ending in the final contents, each thread receives exactly its commits' responses, the only deviations are flagged refusals (OlderTimestamp / no-swap) that change nothing; consequences proved on the witness: no increment is lost, one insert-if-absent wins, an accepted write never lands on an equal or newer timestamp. Ties: (i) the same programs under the same schedule on the real store, threads parked at the H7 scheduling points, must give the model's responses and final contents; (ii) real histories from controlled and free-running threads are judged by the extracted checker lin_check, proved sound in Coq.",
-        "note": TRUST + " The justification of the OlderTimestamp refusals is proved (an accepted delete of the same key with an equal or newer timestamp committed earlier); that of the compare-and-swap refusal (the key was modified while it ran) is checked on real histories by lin_check, not proved for the model. Atomicity of the segments between H7 points and exclusiveness of scc entry guards are assumptions of the model; interleavings inside a segment are exercised only by the free-running histories.",
+        "note": TRUST + " Both permitted deviations are proved justified in the model: an OlderTimestamp refusal is preceded by an accepted delete of the same key with an equal or newer timestamp, and a flagged compare-and-swap refusal happens only when the key's modification counter (one unit per accepted, logged insert/replace/delete of the key) moved between the call's read and its response; on real histories the same rule is applied by lin_check. Atomicity of the segments between H7 points and exclusiveness of scc entry guards are assumptions of the model; interleavings inside a segment are exercised only by the free-running histories.",
         "design": "DESIGN.md section 5 C07",
     },
     "C08": {
